@@ -27,13 +27,29 @@ impl DynExpression {
         ensures final(ctx).trace@ == old(ctx).trace@.push(Ev::Eval(self.id@, r)),
     { unimplemented!() }
 }
+impl Variable {
+    pub fn ident(&self) -> (r: &Ident) ensures *r == self.ident { &self.ident }
+}
+impl OwnedValuePath {
+    #[verifier::external_body]
+    pub fn root() -> (r: OwnedValuePath) ensures r.root { unimplemented!() }
+}
+pub uninterp spec fn spec_unnest_root(root: Value, path: OwnedValuePath) -> Resolved;
+// unnest_root works on values only (clone/remove/insert): no target access; opaque here
+#[verifier::external_body]
+pub fn unnest_root(root: &Value, path: &OwnedValuePath) -> (r: Resolved)
+    ensures r == spec_unnest_root(*root, *path),
+{ unimplemented!() }
 pub enum QueryTarget { Internal(Variable), External(PathPrefix), FunctionCall(FunctionCallNode), Container(ContainerNode) }
 pub struct Query { pub target: QueryTarget, pub path: OwnedValuePath, pub dynexpr: DynExpression }
 
 impl Value {
     // Value::get / insert / remove / at_path over a path: the C18 units; opaque here
+    // reading the root path of a value yields the value itself (crud::get with no segments)
     #[verifier::external_body]
-    pub fn get(&self, path: &OwnedValuePath) -> (r: Option<&Value>) { unimplemented!() }
+    pub fn get(&self, path: &OwnedValuePath) -> (r: Option<&Value>)
+        ensures path.root ==> r == Some(self),
+    { unimplemented!() }
     #[verifier::external_body]
     pub fn insert(&mut self, path: &OwnedValuePath, value: Value) -> (r: Option<Value>) { unimplemented!() }
     #[verifier::external_body]
@@ -49,6 +65,7 @@ impl RuntimeState {
 }
 impl Query {
     pub fn path(&self) -> (r: &OwnedValuePath) ensures *r == self.path { &self.path }
+    pub fn target(&self) -> (r: &QueryTarget) ensures *r == self.target { &self.target }
     // contracts of Query::variable_ident / expression_target (one-line matches on the target)
     #[verifier::external_body]
     pub fn variable_ident(&self) -> (r: Option<&Ident>)
@@ -81,6 +98,9 @@ impl ProgramObj {
     { unimplemented!() }
 }
 impl OwnedTargetPath {
+    pub uninterp spec fn root_spec(prefix: PathPrefix) -> OwnedTargetPath;
+    #[verifier::external_body]
+    pub fn root(prefix: PathPrefix) -> (r: OwnedTargetPath) ensures r == Self::root_spec(prefix) { unimplemented!() }
     pub uninterp spec fn event_root_spec() -> OwnedTargetPath;
     #[verifier::external_body]
     pub fn event_root() -> (r: OwnedTargetPath) ensures r == Self::event_root_spec() { unimplemented!() }
